@@ -274,6 +274,63 @@ fn timed_expiry(rep: &Report) -> serde_json::Value {
     json!({"orders_judged": judged.into_inner(), "orders_not_judged_because_the_machine_was_too_slow": inconclusive.into_inner()})
 }
 
+/// Every arrival order of the fragments of several interleaved sequences, each order on a fresh assembler and none merged
+/// with another (the BFS above merges histories that the reference cannot tell apart; what the assembler keeps internally -
+/// positions in a table, a remembered last entry - may depend on the order all the same): [2,3,2] fragments (5 040 orders),
+/// [3,3] (720), [2,2,2,2] (40 320), and [1,2,3] with a one-fragment sequence (720).
+fn all_orders(rep: &Report) {
+    fn permute(k: usize, a: &mut Vec<usize>, f: &mut dyn FnMut(&[usize])) {
+        if k == a.len() { f(a); return; }
+        for i in k..a.len() { a.swap(k, i); permute(k + 1, a, f); a.swap(k, i); }
+    }
+    for shape in [vec![2u64, 3, 2], vec![3, 3], vec![2, 2, 2, 2], vec![1, 2, 3]] {
+        // events: (sequence index, fragment id); payload of (s, id) = [s, id]
+        let ids = [7u64, u64::MAX, 0, 1 << 40];
+        let events: Vec<(usize, u64)> = shape.iter().enumerate().flat_map(|(s, &n)| (1..=n).map(move |id| (s, id))).collect();
+        let mut order: Vec<usize> = (0..events.len()).collect();
+        let mut bad: Option<serde_json::Value> = None;
+        let mut count = 0u64;
+        permute(0, &mut order, &mut |o: &[usize]| {
+            count += 1;
+            if bad.is_some() { return; }
+            let mut a = FragmentAssembler::with_timeout(Duration::from_secs(3600));
+            let mut have = vec![0u64; shape.len()];
+            for &e in o {
+                let (s, id) = events[e];
+                let n = shape[s];
+                let r = if id == n { a.start_fragment(ids[s], n, None, vec![s as u8, id as u8]) } else { a.add_fragment(ids[s], id, vec![s as u8, id as u8]) };
+                have[s] += 1;
+                let complete_now = have[s] == n;
+                // whichever layout the library concatenates in, the bytes are those of this sequence, each fragment once
+                let ok = match (&r, complete_now) {
+                    (None, false) => true,
+                    (Some(b), true) => { let mut got: Vec<(u8, u8)> = b.chunks(2).map(|c| (c[0], c[1])).collect(); got.sort(); got == (1..=n).map(|i| (s as u8, i as u8)).collect::<Vec<_>>() }
+                    _ => false,
+                };
+                if !ok { bad = Some(json!({"fragments_per_sequence": shape, "arrival_order_(sequence,fragment_id)": o.iter().map(|&x| events[x]).collect::<Vec<_>>(), "at": [s as u64, id], "returned": r.as_ref().map(|b| b.clone()), "sequence_complete_with_this_fragment": complete_now})); return; }
+            }
+            if a.pending_count() != 0 { bad = Some(json!({"fragments_per_sequence": shape, "arrival_order_(sequence,fragment_id)": o.iter().map(|&x| events[x]).collect::<Vec<_>>(), "pending_after_everything_arrived": a.pending_count()})); }
+        });
+        rep.add("evaluations", count as i64);
+        if let Some(b) = bad { rep.violation("interleaved sequences: a message is not returned exactly at its last fragment with its own fragments", b); }
+    }
+    // many sequences open at once: 600 and 2 000 two-fragment messages, all headers first, then all continuations (and the reverse)
+    for n in [600u64, 2000] {
+        for headers_first in [true, false] {
+            rep.add("evaluations", 1);
+            let mut a = FragmentAssembler::with_timeout(Duration::from_secs(3600));
+            let mut early = 0u64;
+            for s in 0..n { let r = if headers_first { a.start_fragment(s, 2, None, vec![1]) } else { a.add_fragment(s, 1, vec![2]) }; if r.is_some() { early += 1; } }
+            let open = a.pending_count();
+            let mut delivered = 0u64;
+            for s in 0..n { let r = if headers_first { a.add_fragment(s, 1, vec![2]) } else { a.start_fragment(s, 2, None, vec![1]) }; if r.map(|b| b.len()) == Some(2) { delivered += 1; } }
+            if early != 0 || delivered != n || open as u64 != n || a.pending_count() != 0 {
+                rep.violation("a message is not returned at its last fragment once the assembler holds many incomplete entries", json!({"sequences_open_at_once": n, "headers_first": headers_first, "open_after_first_fragments": open, "delivered": delivered, "leftover_kind": "all of them live"}));
+            }
+        }
+    }
+}
+
 /// Large numbers: (a) a message of 1 500 and of 3 000 fragments whose header arrives last, in the middle and second (every
 /// continuation above any internal chunk size arrives before it); (b) 300 sequences that expire together are all dropped by one
 /// sweep; (c) 70 abandoned sequences of 1 MiB each expire and are swept in turn - whatever the assembler accounted for them is
@@ -431,6 +488,7 @@ pub fn run(rep: &Report) -> serde_json::Value {
     sequence_id_reuse(rep);
     long_runs(rep);
     large_numbers(rep);
+    all_orders(rep);
     let timed = timed_expiry(rep);
     rep.set_extra("timed_expiry", timed);
     let mut scenarios: Vec<(String, Scenario)> = vec![];
